@@ -73,6 +73,9 @@ CHECKS = {
             {"run": "^TestC04Completion$", "n": {"quick": 8000, "thorough": 40000}},
             # hundreds of builds in flight at once (sync and background): Gets served stale return at once, no lock remains
             {"run": "^TestC01ManyKeys$", "name": "C01ManyKeys-for-C04", "n": {"quick": 300, "thorough": 3000}},
+            # a Get ends in backend calls: after an aborted Walk / Dump / export every backend operation still completes
+            # (real time, outside a bubble: a lock left behind blocks on a mutex, which a bubble cannot tell from slowness)
+            {"run": "^TestC07AbortedWalk$", "name": "C07AbortedWalk-for-C04", "n": {"quick": 1500, "thorough": 15000}},
         ],
     },
     "C05": {
